@@ -669,6 +669,31 @@ def _short_filter(X):
     return conds
 
 
+def _ptask_wrap(X) -> str:
+    """Which predicate makes `_collect_from_tasks` wrap a function with the task decorator (fix 21cea5f, F31)."""
+    E = X.ExtractError
+    fn = X._func(X._parse("collect.py"), "_collect_from_tasks")
+    loops = [b for b in fn.body if isinstance(b, ast.For)]
+    if len(loops) != 1 or _u(loops[0].target) != "raw_task":
+        raise E("_collect_from_tasks: loop over the raw tasks not found")
+    body = loops[0].body
+    if not (isinstance(body[0], ast.If) and _u(body[0].test) == "is_task_function(raw_task)"):
+        raise E("_collect_from_tasks: does not start with `if is_task_function(raw_task)`")
+    inner = body[0].body
+    if not (isinstance(inner[0], ast.If) and [_u(x) for x in inner[0].body] == ["raw_task = task_decorator()(raw_task)"] and not inner[0].orelse):
+        raise E("_collect_from_tasks: wrapping statement changed")
+    t = _u(inner[0].test)
+    kind = {"not has_mark(raw_task, 'task')": ".noTaskMark", "not hasattr(raw_task, 'pytask_meta')": ".noMeta"}.get(t)
+    if kind is None:
+        raise E(f"_collect_from_tasks: unrecognised wrapping predicate `{t}`")
+    if [_u(x) for x in inner[1:]] != ["path = get_file(raw_task)", "name = raw_task.pytask_meta.name"]:
+        raise E("_collect_from_tasks: path / name of a task function changed")
+    if not (isinstance(body[1], ast.If) and _u(body[1].test) == "has_mark(raw_task, 'task')"
+            and [_u(x) for x in body[1].orelse] == ["name = ''", "path = None"]):
+        raise E("_collect_from_tasks: branch on the task mark changed")
+    return kind
+
+
 def collect_gen_lines(X) -> list[str]:
     wbody, dedup = _walk_facts(X)
     steps = _collect_steps(X)
@@ -690,6 +715,7 @@ def collect_gen_lines(X) -> list[str]:
          "inductive MStep | stripSuffix | relativeToRootElseDropFirst | dropInit (minLen : Nat) | normalise | joinDot",
          "inductive IStep | tryPkgName | cachePkg | importUsingSpec | returnIfModule | nameFromPath | cachePath | specFromFile | raiseIfNoSpec | execModule | insertMissing | returnModule",
          "inductive SFilter | isTask | hasFullName",
+         "inductive PWrap | noTaskMark | noMeta",
          "/-- loop body of `_not_ignored_paths` (collect.py). -/",
          f"def walkBody : List WStmt := {_lean_wlist(wbody)}",
          "/-- `_collect_from_paths` removes repeated path arguments before the walk. -/",
@@ -709,6 +735,8 @@ def collect_gen_lines(X) -> list[str]:
          f"def importSteps : List IStep := [{', '.join(isteps)}]",
          "/-- which tasks enter `id_to_task` in `_find_shortest_uniquely_identifiable_name_for_tasks`. -/",
          f"def shortFilter : List SFilter := [{', '.join(sconds)}]",
+         "/-- `_collect_from_tasks` wraps a function with the task decorator when … -/",
+         f"def ptaskWrapWhen : PWrap := {_ptask_wrap(X)}",
          "end Col", ""]
     return L
 
